@@ -497,14 +497,14 @@ func init() {
 			"(ibb, history, receipts, muc client + direct invites, disco info/items with the whole-mux feature/identity/item/form walk, disco caps, roster, blocklist, carbons, xtime, version, ping, bin, a nested mux; bookmarks/crypto/commands/forward/oob/upload/styling feature iterators) with trivial application callbacks. " +
 			"tree: for every registered (kind, type, payload) pattern, the stanza whose children are [text|white space|unknown element]? payload [text|white space|unknown element|another payload of the package]* where payloads carry every tree of the package's own elements (each with its own attributes set to valid/empty/junk, an unknown attribute, at the payload root also xml:lang and a prefixed attribute), an unknown element, text, white space and package specific text, all together <= N nodes (quick 3, thorough 4), duplicate attributes and adjacent text nodes excluded. " +
 			"header: every payload x every stanza type (also missing, empty, undefined) x from {peer, missing, own bare, not a JID, empty} x to {own, missing, not a JID} x id {set, missing, empty} x xml:lang {missing, en, empty} x client/server namespace x {full mux, full mux with failing callbacks, nil handler, empty mux} x {default-namespace payload, prefixed payload, no payload}, with payload trees of <= M nodes (quick 1, thorough 2) under the default namespace/config/spelling. " +
-			"sequence: every sequence of K (quick 2, thorough 3) stanzas from the package's reduced pool plus the generic pool, x namespace x callbacks x application state (IBB listener being accepted on / history query q1 being iterated / receipt r1 awaited / room being joined) on or off; every message/presence with K+1 children drawn from the payloads of all packages (text, body, error included) x every type x application state; the IBB pool also with a listener whose application earlier gave up Listener.Expect for (peer, s1). " +
+			"sequence: every sequence of K (quick 2, thorough 3) stanzas from the package's reduced pool plus the generic pool, x namespace x callbacks x application state (IBB listener being accepted on / history query q1 being iterated / receipt r1 awaited / room being joined) on or off; every message/presence with K+1 children drawn from the payloads of all packages (text, body, error included) x every type x application state; pairs of the IBB pool also with a listener whose application earlier gave up Listener.Expect for (peer, s1). " +
 			"malformed: every pool stanza cut at every byte offset (EOF inside), with each of 14 constructs (comment, PI, directive, stream error, stream restart, stream features, closing stream tag, stray end tag, CDATA, undefined entity, unbound prefix, NUL, duplicate attribute, unquoted attribute) inserted at every tag boundary, and with every end tag replaced by a different one. " +
 			"size: every pattern x {10100-deep nesting (unknown / own element / with text), 5000 siblings, 400 kB text, 5000 attributes, 400 kB attribute value, 100 kB element name}. " +
-			"Oracle: no panic (recovered around Serve; library goroutines and runtime fatal errors through worker crash isolation), Serve returns (nil or any error; a Serve that blocks for good with every goroutine of the worker asleep is reported by the Go runtime as a deadlock and counted as a crash inside the library), everything the session wrote parses as XML after the stream header. Non-trivial = distinct (configuration, input).",
+			"Oracle: no panic (recovered around Serve; library goroutines and runtime fatal errors through worker crash isolation), Serve returns (nil or any error) - judged without a clock: Serve runs in its own goroutine and is declared blocked forever when a stop-the-world snapshot shows every goroutine other than the observer parked on a channel/select/mutex/condition (no timers, no real I/O exist in the harness, so nothing can wake them) -, everything the session wrote parses as XML after the stream header. Non-trivial = distinct (configuration, input).",
 		Assumptions: []string{
 			"'any byte string' is covered through this structured alphabet (token trees over each package's vocabulary), the byte-offset truncations and the listed malformed constructs only",
 			"application callbacks are trivial: they read the token stream they are handed to its end and return nil, a stanza error or a plain error; the application accepts IBB connections, iterates its history query without reading the message streams, and does nothing after a join or a receipt",
-			"a Serve that never returns is not judged by a clock: when every goroutine of the worker is asleep the Go runtime reports the deadlock and the driver counts the crash (signature crash:fatal@<first library frame>); a Serve blocked while some other goroutine stays runnable would show as a hung worker (engine error) and be investigated by hand",
+			"a Serve that never returns is not judged by a clock but by a goroutine snapshot in which everything is parked (signature serve:blocked-forever@<library frame>); a Serve that spins, or waits on a goroutine that spins, would show as a hung worker (engine error) and be investigated by hand",
 			"request helpers that parse a reply (second half of the property) are not part of this check",
 		},
 		Parts: func(tier string) []drv.Part {
@@ -533,7 +533,7 @@ func init() {
 				{Name: "mixed", Desc: fmt.Sprintf("messages and presences with %d children drawn from the payloads of all packages, every type, with and without application state (deviations = %d for the part)", k+1, rq), Body: mixedBody(k+1, rq), MaxDev: rq, CutDepth: 5, Budget: b, CrashIsolate: true, Env: oneP},
 				{Name: "malformed", Desc: fmt.Sprintf("truncations, inserted stream-level/ill-formed constructs, mismatched end tags (deviations = %d for the part)", rm), Body: malformedBody(rm), MaxDev: rm, CutDepth: 4, Budget: b, CrashIsolate: true, Env: oneP},
 				{Name: "size", Desc: fmt.Sprintf("large and deeply nested payloads (deviations = %d for the part)", rz), Body: sizeBody(scale, rz), MaxDev: rz, CutDepth: 4, Budget: b, CrashIsolate: true, Env: oneP},
-				{Name: "ibb-expect", Desc: fmt.Sprintf("sequences of %d pool stanzas for an IBB listener whose application earlier gave up an Expect call for stream s1 of the peer (deviations = %d for the part); a Serve blocked forever shows as the runtime's deadlock report", k, rx), Body: seqBody(k, rx, "ibb", appIBBGaveUp), MaxDev: rx, CutDepth: 5, Budget: b, CrashIsolate: true, Env: oneP},
+				{Name: "ibb-expect", Desc: fmt.Sprintf("sequences of 2 pool stanzas (both tiers: every execution found blocked leaves its goroutines behind) for an IBB listener whose application earlier gave up an Expect call for stream s1 of the peer (deviations = %d for the part)", rx), Body: seqBody(2, rx, "ibb", appIBBGaveUp), MaxDev: rx, CutDepth: 5, Budget: b, CrashIsolate: true, Env: oneP},
 			}
 		},
 	})
